@@ -454,7 +454,7 @@ func rejectUnit() harness.Unit {
 var Prop = &harness.Prop{
 	ID:          "C13",
 	Level:       "exploration",
-	Rule:        "products over the 12-key alphabet (boundary d, GM/T keys, coordinates with leading zero bytes) for long-term and ephemeral keys (pairwise-pruned index schedule), identity lengths {0,1,16,255,8191}, key lengths {1,15,16,17,31,32,33,48,64,1024}; the GM/T 0003.5 worked example; ephemerals found by search whose shared point has a leading zero byte; both roles run on the library and K, S1, S2 are compared between the sides and with the independent GM/T 0003.3 reference; keys constructed so that the peer's long-term point equals [x~]R of its ephemeral (the inner addition is a doubling) and so that the own t = d + x~ r is 1, 2 or n-1; off-curve / infinite peer ephemerals and V = infinity must give an error. Distinct/non-trivial = distinct case labels. Identity forms: 5 x 5 identities incl. nil and the empty slice, and the empty identity spelled nil by one party and []byte{} by the other.",
+	Rule:        "products over the 12-key alphabet (boundary d, GM/T keys, coordinates with leading zero bytes) for long-term and ephemeral keys (pairwise-pruned index schedule), identity lengths {0,1,16,255,8191}, key lengths {1,15,16,17,31,32,33,48,64,1024}; the GM/T 0003.5 worked example; ephemerals found by search whose shared point has a leading zero byte; both roles run on the library and K, S1, S2 are compared between the sides and with the independent GM/T 0003.3 reference; keys constructed so that the peer's long-term point equals [x~]R of its ephemeral (the inner addition is a doubling) and so that the own t = d + x~ r is 1, 2 or n-1; off-curve / infinite peer ephemerals and V = infinity must give an error. Distinct/non-trivial = distinct case labels. Identity forms: 5 x 5 identities incl. nil and the empty slice, and the empty identity spelled nil by one party and []byte{} by the other. Own keys with t = d + x~ r = 0 (error required, both roles); peer ephemeral points constructed from chosen x just below / at 2^8, 2^64, 2^126..2^129, 2^200, checked one-sidedly against the reference.",
 	Assumptions: []string{"refsm2 correct (its key-exchange reproduces the GM/T 0003.5 example: K, S1/SB, S2/SA)", "klen is in bytes as the library API defines it"},
 	Bounds: func(tier string) string {
 		return "all 12x12x12 (A,B,ephemeral-index) combinations with key and identity lengths rotated pairwise" + map[bool]string{true: "; full product of 15 key lengths x 5 x 5 identity lengths on 4 key combinations", false: ""}[tier == "thorough"]
